@@ -378,6 +378,30 @@ def check_parse_numbers(ctx):
     ctx.ob("C13.6", "verif.util.get_date", ok, "get_date adds whole days on the calendar", loc=prog.loc(m, gd), msg="get_date changed")
 
 
+def check_field_lookup(ctx):
+    """-obs / -fcst / -m <field>: a name that is not a built-in field is the name of a column of the input files, looked up as given."""
+    prog = ctx.prog
+    site = "verif.field.get"
+    m = prog.module("verif.field")
+    f = prog.func(site)
+    ev = symeval.Evaluator(m)
+    ev.loop_mode = "body_once"
+    ev.merge_ifs = True
+    try:
+        outs = [o for o in ev.run(f) if o.kind == "return"]
+    except symeval.Undecided as e:
+        raise AnalysisError("%s: %s" % (site, e))
+    others = []
+    for o in outs:
+        if isinstance(o.value, Rat):
+            others.extend(a for a in o.value.atoms(deep=True) if a.func == "call:verif.field.Other")
+    ctx.need(others, "%s: the fall-through to Other(name) was not found" % site)
+    for a in others:
+        ok = len(a.args) == 1 and isinstance(a.args[0], Rat) and a.args[0].key() == "$name"
+        ctx.ob("C13.1", site, ok, "an unknown field name becomes Other(<the name as given>)", loc=prog.loc(m, f),
+               msg="verif.field.get builds Other(%s): the column name given with -obs/-fcst is altered before it is looked up in the files" % (str(a.args[0])[:60] if a.args else ""))
+
+
 def check_help(ctx, br):
     prog = ctx.prog
     site = "verif.driver.show_description"
@@ -454,6 +478,7 @@ def run(ctx):
     br, top, rest, guard, final, loops = check_options(ctx, "selection", "C13.1", opts["selection"])
     check_arity_and_rejections(ctx, br, top, rest, guard, final, loops)
     check_parse_numbers(ctx)
+    check_field_lookup(ctx)
     documented = check_help(ctx, br)
     # every documented flag has a reference row
     rows = set(opts["selection"]) | set(opts["appearance"]) | {"--config"}
